@@ -28,6 +28,8 @@ struct ScalarFn {
     r: f64,
     a: f64,
     b: f64,
+    /// the equation is scale * (g(x) - g(r)) = 0: Newton's iterates do not depend on the scale
+    scale: f64,
 }
 impl ScalarFn {
     fn g(&self, x: f64) -> f64 {
@@ -41,7 +43,7 @@ impl ScalarFn {
         }
     }
     fn f(&self, x: f64) -> f64 {
-        self.g(x) - self.g(self.r)
+        self.scale * (self.g(x) - self.g(self.r))
     }
     fn gc(&self, z: Cmplx) -> Cmplx {
         match self.kind {
@@ -62,7 +64,8 @@ fn gen_scalar(src: &mut Src) -> (ScalarFn, f64) {
     let a = r + src.f64_in(1.0, 3.0);
     let b = r - src.f64_in(1.0, 3.0);
     let d = src.f64_in(-0.1, 0.1) * if kind == 4 { 0.5 } else { 1.0 };
-    (ScalarFn { kind, r, a, b }, r + d)
+    let scale = if src.coin() { 1.0 } else { 10f64.powf(src.f64_in(-6.0, 6.0)) };
+    (ScalarFn { kind, r, a, b, scale }, r + d)
 }
 
 struct Cfg {
@@ -81,9 +84,15 @@ fn scalar_real(case: &mut Case, success: bool) -> Result<(), String> {
     let cfg = gen_cfg(&mut case.src, success);
     let (sf, mut guess) = gen_scalar(&mut case.src);
     // termination half: arbitrary functions
-    let bad_kind = if success { 0 } else { 1 + case.src.below(7) };
+    let bad_kind = if success { 0 } else { 1 + case.src.below(9) };
     if !success {
-        guess = case.src.f64_in(-3.0, 3.0);
+        // arbitrary guesses, including exactly 0.0 / the kink / the step (where a difference quotient can be 0 or NaN)
+        guess = match case.src.below(5) {
+            0 => 0.0,
+            1 => 0.3,
+            2 => case.src.small_int(3) as f64,
+            _ => case.src.f64_in(-3.0, 3.0),
+        };
     }
     let func = |x: f64| -> f64 {
         match bad_kind {
@@ -92,6 +101,8 @@ fn scalar_real(case: &mut Case, success: bool) -> Result<(), String> {
             2 => x.exp(),               // root-free
             3 => 2.5,                   // constant
             4 => x.abs() + 0.0 * sf.r,  // non-differentiable at its root
+            8 => x * x,                 // double root at 0: derivative vanishes at the root
+            9 => 1.0 - x.cos(),         // double root at 0
             5 => if x > 0.3 { 1.0 } else { -1.0 }, // step
             6 => if x > 0.0 { f64::NAN } else { x - 1.0 }, // NaN-returning
             _ => sf.f(x),               // a solvable one with an arbitrary budget
@@ -238,7 +249,8 @@ fn scalar_real(case: &mut Case, success: bool) -> Result<(), String> {
 fn scalar_cmplx(case: &mut Case, success: bool) -> Result<(), String> {
     let cfg = gen_cfg(&mut case.src, success);
     let kind = case.src.below(5);
-    let sf = ScalarFn { kind, r: 0.0, a: 0.0, b: 0.0 };
+    let fscale = if case.src.coin() { 1.0 } else { 10f64.powf(case.src.f64_in(-6.0, 6.0)) };
+    let sf = ScalarFn { kind, r: 0.0, a: 0.0, b: 0.0, scale: fscale };
     let r = {
         let m = case.src.f64_in(0.7, 2.0);
         let th = case.src.f64_in(-3.1, 3.1);
@@ -259,11 +271,11 @@ fn scalar_cmplx(case: &mut Case, success: bool) -> Result<(), String> {
     let gr = sf.gc(r);
     let func = |z: Cmplx| -> Cmplx {
         match bad_kind {
-            0 => sf.gc(z) - gr,
+            0 => (sf.gc(z) - gr) * fscale,
             1 => z.exp(),                                  // root-free
             2 => Cmplx::new(1.5, -0.5),                    // constant
             3 => Cmplx::new(z.abs(), 0.0) + Cmplx::new(1.0, 0.0), // not analytic, root-free
-            _ => sf.gc(z) - gr,
+            _ => (sf.gc(z) - gr) * fscale,
         }
     };
     let log: RefCell<Vec<Cmplx>> = RefCell::new(Vec::new());
@@ -397,6 +409,8 @@ struct Sys {
     eps: f64,
     phi: Vec<u32>,
     r: Vec<f64>,
+    /// F is multiplied by this constant (the Newton iterates do not depend on it; the residual test does)
+    scale: f64,
 }
 impl Sys {
     fn phi(&self, k: u32, x: f64) -> (f64, f64) {
@@ -412,10 +426,10 @@ impl Sys {
     }
     fn f(&self, x: &[f64]) -> Vec<f64> {
         let gr = self.g(&self.r);
-        self.g(x).iter().zip(&gr).map(|(p, q)| p - q).collect()
+        self.g(x).iter().zip(&gr).map(|(p, q)| self.scale * (p - q)).collect()
     }
     fn jac(&self, x: &[f64]) -> Vec<Vec<f64>> {
-        (0..self.n).map(|i| (0..self.n).map(|j| self.a[i][j] + if i == j { self.eps * self.phi(self.phi[i], x[i]).1 } else { 0.0 }).collect()).collect()
+        (0..self.n).map(|i| (0..self.n).map(|j| self.scale * (self.a[i][j] + if i == j { self.eps * self.phi(self.phi[i], x[i]).1 } else { 0.0 })).collect()).collect()
     }
 }
 fn gen_sys(src: &mut Src) -> Sys {
@@ -430,7 +444,8 @@ fn gen_sys(src: &mut Src) -> Sys {
         let s: f64 = a[i].iter().map(|v| v.abs()).sum();
         a[i][i] = (s + src.f64_in(1.0, 2.0)) * if src.coin() { 1.0 } else { -1.0 };
     }
-    Sys { n, a, eps: src.f64_in(0.0, 0.2), phi: (0..n).map(|_| src.below(4)).collect(), r: (0..n).map(|_| src.f64_in(-1.5, 1.5)).collect() }
+    let scale = if src.coin() { 1.0 } else { 10f64.powf(src.f64_in(-3.0, 3.0)) };
+    Sys { n, a, eps: src.f64_in(0.0, 0.2), phi: (0..n).map(|_| src.below(4)).collect(), r: (0..n).map(|_| src.f64_in(-1.5, 1.5)).collect(), scale }
 }
 fn inv_norm_inf(j: &[Vec<f64>]) -> f64 {
     let jc: Vec<Vec<C>> = j.iter().map(|r| r.iter().map(|v| (*v, 0.0)).collect()).collect();
@@ -438,9 +453,13 @@ fn inv_norm_inf(j: &[Vec<f64>]) -> f64 {
 }
 
 fn system_real(case: &mut Case, success: bool) -> Result<(), String> {
-    let cfg = gen_cfg(&mut case.src, success);
+    let mut cfg = gen_cfg(&mut case.src, success);
     let sys = gen_sys(&mut case.src);
     let n = sys.n;
+    // the residual test ||F|| <= tol must be attainable: F = scale*(g(x) - g(r)) is evaluated with an absolute
+    // rounding error of about eps*scale*|g|
+    let gmax = sys.g(&sys.r).iter().fold(1.0f64, |a, b| a.max(b.abs()));
+    cfg.tol = cfg.tol.max(200.0 * f64::EPSILON * sys.scale * (gmax + 1.0));
     let supplied = case.src.coin();
     let guess: Vec<f64> = if success { sys.r.iter().map(|r| r + case.src.f64_in(-0.1, 0.1)).collect() } else { (0..n).map(|_| case.src.f64_in(-2.0, 2.0)).collect() };
     let bad_kind = if success { 0 } else { 1 + case.src.below(4) };
@@ -719,7 +738,7 @@ impl Prop for C17 {
     }
     fn rule(&self) -> String {
         "per case one of the six methods (Newton<f64>, Newton<Cmplx>, Newton<Vec64> and Newton<Vector<Cmplx>> with finite-difference or supplied Jacobian) and one of two halves. \
-         Success half (3/5): f = g - g(r) with g in {x^3+x, exp, sinh, atan, cubic with roots >= 1 apart, x - cos(x)/2} (complex: z^3+z, exp, z^2, sinh, z^3-2z), root r known by construction, guess within 0.1 (0.05) of r, inside the basin of quadratic convergence; \
+         Success half (3/5): f = c (g - g(r)), c = 1 or 10^[-6,6] (systems 10^[-3,3]), with g in {x^3+x, exp, sinh, atan, cubic with roots >= 1 apart, x - cos(x)/2} (complex: z^3+z, exp, z^2, sinh, z^3-2z), root r known by construction, guess within 0.1 (0.05) of r, inside the basin of quadratic convergence; \
          systems F(x) = A x + eps phi(x) - (A r + eps phi(r)) of dimension 1..=6 with strictly diagonally dominant A, eps <= 0.2 and smooth component-wise phi; tol = 10^[-12,-4], delta = 10^[-8,-6], max_iter 20..=50: \
          the call must return Ok within 10 tol + 1e-12 (scalar) / 10 ||J(r)^-1|| tol + 1e-10 (systems) of r. Termination half (2/5): root-free, constant, non-differentiable, step and NaN-returning functions and solvable ones with max_iter 0..=50. \
          Always: no panic; evaluations <= 3 max_iter (scalar), (n+2) max_iter (finite-difference systems), max_iter function and Jacobian calls (supplied); parameters() identical before and after and equal to the configured values; two consecutive calls bit-identical; \
